@@ -199,7 +199,7 @@ func (w *World) probeFaults(ev Event) bool {
 			points++
 			w.Stats.Probes["fault-point:"+DepNames[kind]]++
 			w.Restore(snap)
-			if w.StopAtFirst && len(w.Found) > 0 {
+			if w.Stop() {
 				return true
 			}
 		}
@@ -249,7 +249,7 @@ func (w *World) probeGas(ev Event) bool {
 		}
 		w.Stats.Probes["gas-sweep-calls"]++
 		w.Restore(snap)
-		if w.StopAtFirst && len(w.Found) > 0 {
+		if w.Stop() {
 			return true
 		}
 	}
